@@ -29,6 +29,7 @@ fn engines() -> Vec<Arc<dyn Engine>> {
         Arc::new(e3::pairs::Pairs),
         Arc::new(e3::wire::Wire),
         Arc::new(e3::selection::Selection),
+        Arc::new(e3::memory::Memory),
     ]
 }
 
@@ -61,6 +62,7 @@ fn plan_for(prop: &str, tier: &str) -> Vec<(Arc<dyn Engine>, u64)> {
             add(Arc::new(e2::E2), 2_000, 80_000);
         }
         "C10" | "C11" => add(Arc::new(e3::detector::Detector), 20_000, 1_000_000),
+        "C12" => add(Arc::new(e3::memory::Memory), 6_000, 200_000),
         "C14" | "C20" => add(Arc::new(e3::pairs::Pairs), 40_000, 2_000_000),
         "C17" => {
             add(Arc::new(e3::selection::Selection), 4_000, 200_000);
